@@ -52,7 +52,8 @@ RootOf(h, i) == IF h.p[i] = 0 THEN i ELSE RootOf(h, h.p[i])
 SideIn(h, par, c) == IF h.l[par] = c THEN "left" ELSE IF h.r[par] = c THEN "right" ELSE "none"
 RECURSIVE RootSide(_,_)   \* side of the root under which non-root node i lives
 RootSide(h, i) == IF h.p[h.p[i]] = 0 THEN SideIn(h, h.p[i], i) ELSE RootSide(h, h.p[i])
-Sibling(h, i) == IF h.p[i] = 0 THEN 0 ELSE IF h.l[h.p[i]] = i THEN h.r[h.p[i]] ELSE h.l[h.p[i]]
+\* the other operand of the node that holds i; a node that merely points at a former parent (it was replaced there) is nobody's sibling
+Sibling(h, i) == IF h.p[i] = 0 THEN 0 ELSE IF h.l[h.p[i]] = i THEN h.r[h.p[i]] ELSE IF h.r[h.p[i]] = i THEN h.l[h.p[i]] ELSE 0
 Children(h, i) == (IF h.l[i] # 0 THEN <<h.l[i]>> ELSE <<>>) \o (IF h.r[i] # 0 THEN <<h.r[i]>> ELSE <<>>)
 IsLeaf(h, i) == h.l[i] = 0 /\ h.r[i] = 0
 RECURSIVE PathTo(_,_)
